@@ -16,6 +16,17 @@ From RP2V Require Import Base.Prelude Base.Time Base.Dec Model.Types Model.Gener
 Import ListNotations.
 Open Scope Z_scope.
 
+(** SOURCE TIE (fee split).  The artificial fee-only OutTransaction(...) that ods_parser._create_and_process_transaction
+    builds for an acquisition with a crypto fee is re-read from the source on every run as a keyword-argument map
+    (Generated.gen_split_fee_args), and so is the guard under which it is built; interpreted by Model/SplitGen.v they are
+    the model's [fee_out] (exchange, holder and crypto fee of the row: the debit the account balance sees) and the test
+    "crypto fee positive".  Stated through [data_row]: the whole row step is the interpretation of the table. *)
+From RP2V Require Import Model.Parser Model.SplitGen Proofs.SplitGenProofs.
+Theorem C07_source_tie_fee_split :
+  forall cfg asset s t rowno row, data_row_gen cfg asset s t rowno row = data_row cfg asset s t rowno row.
+Proof. exact data_row_gen_agrees. Qed.
+Print Assumptions C07_source_tie_fee_split.
+
 (** "For every (exchange, holder) account the reported acquired, sent, received and final balances equal the sums
     over that account's transactions up to the to-date ... final = acquired + received - sent; every account
     touched appears exactly once".  Holds with and without -n ([allow]) whenever a table is produced. *)
